@@ -72,7 +72,8 @@ Fixpoint s_next (fuel : nat) (now : Z) (s : sched) : res (sched * Z * bool) :=
         else Ok (DoAt n d a (S i) (Some st'), st' + d, false)
     | Unlim d fin =>
         let fin' := match fin with Some x => x | None => now + d end in
-        if now <? fin' then Ok (Unlim d (Some fin'), now, true)
+        (* while the start (finish - duration) is in the future the start time is answered *)
+        if now <? fin' then Ok (Unlim d (Some fin'), Z.max now (fin' - d), true)
         else Ok (Unlim d (Some fin'), fin', false)
     | Comp [] _ _ => Panic PIndex
     | Comp (h :: r) la _ =>
@@ -227,7 +228,7 @@ Fixpoint flatten_cfg (c : cfg) : list sched :=
 (* ---------------------------------------------------------------- abstract token stream *)
 Inductive item : Type :=
 | IT (t : Z)        (* one token at time t *)
-| IW (fin : Z).     (* an unlimited window: tokens "now" while now < fin *)
+| IW (st fin : Z).  (* an unlimited window [st, fin): tokens max(now, st) while now < fin *)
 
 (* remaining items of a flat state; [s] = start of the head when it is not started yet.
    Returns the items and the final finish time. *)
@@ -241,25 +242,25 @@ Fixpoint items_from (s : Z) (fl : list sched) : list item * Z :=
   | Unlim d fin :: r =>
       let f0 := match fin with Some f => f | None => s + d end in
       let '(its, f) := items_from f0 r in
-      (IW f0 :: its, f)
+      (IW (f0 - d) f0 :: its, f)
   | Comp _ _ _ :: r => items_from s r
   end.
 
-(* abstract Next: first token in order; a window yields [now] while open and is left
+(* abstract Next: first token in order; a window yields max(now, its start) while open and is left
    behind for good once closed; when nothing is left, the final finish time. *)
 Fixpoint abs_next (now : Z) (fin : Z) (its : list item) : list item * Z * bool :=
   match its with
   | [] => ([], fin, false)
   | IT t :: r => (r, t, true)
-  | IW f :: r => if now <? f then (its, now, true) else abs_next now fin r
+  | IW s f :: r => if now <? f then (its, Z.max now s, true) else abs_next now fin r
   end.
 
 Fixpoint drop_closed (now : Z) (its : list item) : list item :=
   match its with
-  | IW f :: r => if now <? f then its else drop_closed now r
+  | IW _ f :: r => if now <? f then its else drop_closed now r
   | _ => its
   end.
-Definition is_window (x : item) : bool := match x with IW _ => true | _ => false end.
+Definition is_window (x : item) : bool := match x with IW _ _ => true | _ => false end.
 (* abstract Left: number of tokens left, or -1 while a window is not closed (a window that
    has not been reached counts as not closed). *)
 Definition abs_left (now : Z) (its : list item) : Z :=
